@@ -59,7 +59,7 @@ func recoverReplayOps(a *CoreObs, ops []CoreOp, accepted map[string]int) (out []
 	}
 	for i := range a.Nodes {
 		n := &a.Nodes[i]
-		nodeIdx[n.ID] = add(CoreOp{Kind: "node_add", Node: n.ID, Cap: cloneRes(n.Total), Drain: !n.Sched})
+		nodeIdx[n.ID] = add(CoreOp{Kind: "node_add", Node: n.ID, Cap: reloadCloneRes(n.Total), Drain: !n.Sched})
 	}
 	for i := range a.Apps {
 		ap := &a.Apps[i]
@@ -77,7 +77,7 @@ func recoverReplayOps(a *CoreObs, ops []CoreOp, accepted map[string]int) (out []
 		for j := range ap.Allocs {
 			al := &ap.Allocs[j]
 			bound[al.Key] = true
-			add(CoreOp{Kind: "alloc", App: ap.ID, Key: al.Key, Node: al.Node, Res: cloneRes(al.Res), Ph: al.Ph, TaskGroup: al.TaskGroup, Prio: al.Prio,
+			add(CoreOp{Kind: "alloc", App: ap.ID, Key: al.Key, Node: al.Node, Res: reloadCloneRes(al.Res), Ph: al.Ph, TaskGroup: al.TaskGroup, Prio: al.Prio,
 				Originator: al.Originator, NoPreempt: !al.PreemptSelf, PreemptOther: al.PreemptOther, AgeSec: 3600}, idx(appIdx, ap.ID), idx(nodeIdx, al.Node))
 		}
 		for j := range ap.Requests {
@@ -86,7 +86,7 @@ func recoverReplayOps(a *CoreObs, ops []CoreOp, accepted map[string]int) (out []
 				continue
 			}
 			// an ask the shim has not been told a binding for (pending, or allocated by an in-flight placeholder swap)
-			add(CoreOp{Kind: "alloc", App: ap.ID, Key: r.Key, Res: cloneRes(r.Res), Ph: r.Ph, TaskGroup: r.TaskGroup, Prio: r.Prio, ReqNode: r.ReqNode,
+			add(CoreOp{Kind: "alloc", App: ap.ID, Key: r.Key, Res: reloadCloneRes(r.Res), Ph: r.Ph, TaskGroup: r.TaskGroup, Prio: r.Prio, ReqNode: r.ReqNode,
 				Originator: r.Originator, NoPreempt: !r.PreemptSelf, PreemptOther: r.PreemptOther, AgeSec: 3600}, idx(appIdx, ap.ID))
 		}
 	}
@@ -94,7 +94,7 @@ func recoverReplayOps(a *CoreObs, ops []CoreOp, accepted map[string]int) (out []
 	for i := range a.Nodes {
 		for j := range a.Nodes[i].Foreign {
 			f := &a.Nodes[i].Foreign[j]
-			add(CoreOp{Kind: "alloc", Key: f.Key, Node: a.Nodes[i].ID, Foreign: true, Res: cloneRes(f.Res)}, idx(nodeIdx, a.Nodes[i].ID))
+			add(CoreOp{Kind: "alloc", Key: f.Key, Node: a.Nodes[i].ID, Foreign: true, Res: reloadCloneRes(f.Res)}, idx(nodeIdx, a.Nodes[i].ID))
 		}
 	}
 	return out, deps
